@@ -304,6 +304,26 @@ func init() {
 			})
 		}
 		f.boolFact("finderRevisitsWithinDepth", revisit)
+		// C12: every sort.Search result in pruneTables is compared with the key before it is used as an index
+		pt := f.funcDecl("pkg/prune/prune.go", "", "pruneTables")
+		searches, guards := 0, 0
+		if pt != nil {
+			ast.Inspect(pt.Body, func(n ast.Node) bool {
+				switch x := n.(type) {
+				case *ast.CallExpr:
+					if f.src(x.Fun) == "sort.Search" {
+						searches++
+					}
+				case *ast.IfStmt:
+					c := f.src(x.Cond)
+					if strings.Contains(c, "< len(") && strings.Contains(c, "==") {
+						guards++
+					}
+				}
+				return true
+			})
+		}
+		f.boolFact("pruneSearchChecked", searches > 0 && guards >= searches)
 		// C06: packfile header bit count
 		eh := f.funcDecl("pkg/encoding/packfile/packfile.go", "", "encodeObjTypeAndLen")
 		bt := f.declType(eh, "bits")
